@@ -275,6 +275,12 @@ pub fn duplex(seed: u64, family: &str, p: &Profile) -> Scenario {
             _ => w.push(WOp::Shutdown),
         }
     };
+    // Application-level framing in most runs: do not close before the peer's stream was read
+    // (the library has no half-close: a FIN ends both directions).
+    if r.chance(0.65) {
+        wa.push(WOp::WaitRead(bytes_b));
+        wb.push(WOp::WaitRead(bytes_a));
+    }
     end(&mut r, &mut wa);
     end(&mut r, &mut wb);
     let ra = gen_reads(&mut r, p.slow_reader);
@@ -301,4 +307,513 @@ pub fn duplex(seed: u64, family: &str, p: &Profile) -> Scenario {
         settle_ms: 2_000,
         params: Default::default(),
     }
+}
+
+// ------------------------------------------------------------------------------------------
+// C03: termination faults inside in-flight activity.
+
+pub fn c03(seed: u64) -> Scenario {
+    let mut p = Profile::full(40_000);
+    p.tiny_mss = false;
+    p.suspend = false;
+    p.cuts = false;
+    p.emsgsize = false;
+    let mut sc = duplex(seed, "c03_termination", &p);
+    let mut r = Rng::new(seed ^ 0xC03);
+    // Keep death bounds small enough that the run can be judged.
+    for n in sc.nodes.iter_mut() {
+        n.opts.inactivity_ms = Some(r.log_range(1000, 20_000));
+        n.opts.max_retx = Some(r.range(2, 6) as usize);
+    }
+    // Readers keep reading (no drop): end every read script with read-to-end.
+    for side in [&mut sc.connects[0].side, &mut sc.accepts[0].side] {
+        side.r.retain(|o| !matches!(o, ROp::Drop));
+    }
+    let t_fault = r.log_range(1, 3000);
+    match r.below(8) {
+        0 | 1 => sc.net.cuts.push(Cut { from_ms: t_fault, to_ms: None, dir: CutDir::Both }),
+        2 => sc.net.cuts.push(Cut { from_ms: t_fault, to_ms: None, dir: CutDir::From(r.below(2) as usize) }),
+        3 => sc.global.push(GlobalOp::Kill { node: r.below(2) as usize, at_ms: t_fault }),
+        4 => sc.global.push(GlobalOp::InjectReset { to_node: r.below(2) as usize, at_ms: t_fault }),
+        5 => sc.global.push(GlobalOp::Cancel { node: r.below(2) as usize, at_ms: t_fault }),
+        6 => {
+            // loss concentrated on the FIN exchange
+            sc.net.type_drop_p[1] = *r.pick(&[0.3, 0.6, 0.9]);
+            if r.chance(0.5) {
+                sc.net.type_drop_p[2] = *r.pick(&[0.1, 0.3]);
+            }
+        }
+        _ => {
+            // cut the network at the very instant flush/shutdown returned Ok
+            let side = if r.chance(0.5) { &mut sc.connects[0].side } else { &mut sc.accepts[0].side };
+            let pos = side.w.iter().position(|o| matches!(o, WOp::Flush | WOp::Shutdown));
+            let cut = WOp::CutNet { dir: CutDir::Both, drop_in_flight: r.chance(0.5) };
+            match pos {
+                Some(i) => side.w.insert(i + 1, cut),
+                None => {
+                    side.w.retain(|o| !matches!(o, WOp::Drop));
+                    side.w.push(WOp::Flush);
+                    side.w.push(cut);
+                }
+            }
+        }
+    }
+    let b = sc.nodes.iter().map(|n| n.opts.inactivity_ms().max((n.opts.max_retx() as u64 + 1) * 60_000)).max().unwrap();
+    sc.script_cap_ms = 3_000 + 2 * b + 60_000;
+    sc.settle_ms = b + 10_000;
+    sc
+}
+
+// ------------------------------------------------------------------------------------------
+// C02 (a): fair-lossy liveness.
+
+pub fn c02_fair(seed: u64, defaults: bool) -> Scenario {
+    let mut r = Rng::new(seed ^ 0xC02A);
+    let ipv6 = r.chance(0.2);
+    let mtu = if r.chance(0.5) { None } else { Some(r.range(300, 1500) as usize) };
+    let link = mtu.unwrap_or(1500);
+    let k: u8 = if defaults { 1 } else { r.range(1, 2) as u8 };
+    let lat = *r.pick(&[0u64, 1000, 5000, 20_000, 50_000, 100_000]);
+    let d_max_us: u64 = if defaults { 100_000 } else { *r.pick(&[100_000u64, 400_000, 1_500_000]) };
+    let jitter = r.range(0, d_max_us.saturating_sub(lat).min(d_max_us));
+    let mut mk = |r: &mut Rng| {
+        let mut o = OptsCfg { link_mtu: mtu, ..Default::default() };
+        if !defaults {
+            // k + ceil(log2(D/200ms)) + 1 < max_retx ; inactivity above the longest legal silent gap
+            let extra = ((d_max_us as f64 / 200_000.0).log2().ceil().max(0.0)) as usize;
+            o.max_retx = Some(2 * k as usize + extra + 4 + r.below(4) as usize);
+            o.inactivity_ms = Some(r.range(240_000, 600_000));
+            if r.chance(0.5) {
+                o.rx_buf = Some(r.log_range((2 * link) as u64, 65536) as usize);
+            }
+            if r.chance(0.5) {
+                o.tx_init = Some(r.log_range(64, 65536) as usize);
+                if r.chance(0.5) {
+                    o.tx_max = Some(r.log_range(64, 262_144) as usize);
+                }
+            }
+            o.disable_nagle = r.chance(0.3);
+            if r.chance(0.3) {
+                o.mtu_probe_retx = Some(r.below(3) as usize);
+            }
+        }
+        o
+    };
+    let oa = mk(&mut r);
+    let ob = mk(&mut r);
+    let fault_until = r.range(500, 20_000);
+    let b_ms = [&oa, &ob].iter().map(|o| o.inactivity_ms() + (o.max_retx() as u64 + 1) * 60_000).max().unwrap() + 10_000;
+    let net = NetCfg {
+        seed: r.next(),
+        latency_us: lat,
+        jitter_us: jitter,
+        drop_p: *r.pick(&[0.01, 0.03, 0.1, 0.25]),
+        dup_p: *r.pick(&[0.0, 0.02, 0.1]),
+        drop_budget: Some(k),
+        // With library defaults the backed-off RTO (kept until the next valid RTT sample) must
+        // stay below the 10 s inactivity time-out: bound the total number of drops.
+        drop_total: if defaults { Some(r.range(1, 3) as u32) } else { None },
+        protect_syn: true,
+        // "On an established connection": random faults start once the handshake and the
+        // initiator's first packet are through (SYN, SYN-ACK, first DATA + margin).
+        fault_from_ms: Some((3 * lat).div_ceil(1000) + 5),
+        fault_until_ms: Some(fault_until),
+        ..Default::default()
+    };
+    let bytes_a = r.log_range(1, 60_000);
+    let bytes_b = if r.chance(0.4) { 0 } else { r.log_range(1, 60_000) };
+    let mut wa = gen_writes(&mut r, bytes_a, oa.tx_init(), min_payload(link, ipv6));
+    let mut wb = gen_writes(&mut r, bytes_b, ob.tx_init(), min_payload(link, ipv6));
+    wa.push(WOp::Flush);
+    wa.push(WOp::WaitRead(bytes_b));
+    wa.push(WOp::Shutdown);
+    wb.push(WOp::Flush);
+    wb.push(WOp::WaitRead(bytes_a));
+    wb.push(WOp::Shutdown);
+    let slow = !defaults && r.chance(0.3);
+    let mk_reads = |r: &mut Rng| -> Vec<ROp> {
+        let mut v = vec![];
+        if slow {
+            v.push(ROp::Sleep(r.log_range(10, 3000)));
+        }
+        v.push(ROp::Read { n: u64::MAX, buf: r.log_range(16, 65536) as usize, vectored: r.chance(0.2) });
+        v
+    };
+    let ra = mk_reads(&mut r);
+    let rb = mk_reads(&mut r);
+    let mut params = std::collections::BTreeMap::new();
+    params.insert("c02_mode".to_string(), 0);
+    Scenario {
+        family: if defaults { "c02_fair_defaults" } else { "c02_fair" }.to_string(),
+        seed,
+        net,
+        nodes: vec![NodeCfg { ipv6, opts: oa, env: gen_env(&mut r) }, NodeCfg { ipv6, opts: ob, env: gen_env(&mut r) }],
+        connects: vec![ConnectScript { node: 0, to: 1, at_ms: 0, cancel_after_ms: None, side: Side { w: wa, r: ra } }],
+        accepts: vec![AcceptScript { node: 1, at_ms: 0, cancel_after_ms: None, side: Side { w: wb, r: rb } }],
+        global: vec![],
+        peer: None,
+        // last fault instant + the longest legitimate recovery (RTO may have backed off to its
+        // 60 s cap): defaults 120 s, otherwise inactivity + (cap + 1) x 60 s.
+        script_cap_ms: fault_until + if defaults { 120_000 } else { b_ms },
+        settle_ms: 1_000,
+        params,
+    }
+}
+
+/// Systematic single-/pair-drop placement: a seeded fault-free scenario re-run with exactly
+/// the datagrams `drops` (attempt ordinals) dropped.
+pub fn c02_placement(seed: u64, drops: &[u64]) -> Scenario {
+    let mut sc = c02_fair(seed, true);
+    sc.family = "c02_placement".into();
+    sc.net.jitter_us = 0;
+    sc.net.drop_p = 0.0;
+    sc.net.dup_p = 0.0;
+    sc.net.explicit = Some(drops.iter().map(|a| crate::net::Decision { att: *a, drop: true, ..Default::default() }).collect());
+    sc.script_cap_ms = 150_000;
+    sc
+}
+
+// ------------------------------------------------------------------------------------------
+// C02 (b): loss-free promptness.
+
+pub fn c02_prompt(seed: u64) -> Scenario {
+    let mut r = Rng::new(seed ^ 0xC02B);
+    let ipv6 = r.chance(0.2);
+    let mtu = if r.chance(0.5) { None } else { Some(r.range(300, 1500) as usize) };
+    let link = mtu.unwrap_or(1500);
+    let lat = *r.pick(&[0u64, 1000, 3000, 10_000, 25_000, 60_000, 120_000, 200_000]);
+    let mut mk = |r: &mut Rng| {
+        let mut o = OptsCfg { link_mtu: mtu, ..Default::default() };
+        if r.chance(0.5) {
+            o.tx_init = Some(r.log_range(256, 65536) as usize);
+        }
+        o.disable_nagle = r.chance(0.3);
+        o
+    };
+    let oa = mk(&mut r);
+    let ob = mk(&mut r);
+    let net = NetCfg { seed: r.next(), latency_us: lat, protect_syn: true, ..Default::default() };
+    let gen_side = |r: &mut Rng, o: &OptsCfg, must_write: bool| -> (Vec<WOp>, u64) {
+        let mut w = vec![];
+        let mut total = 0u64;
+        let pieces = if must_write { r.range(1, 5) } else { r.range(0, 4) };
+        for i in 0..pieces {
+            if i > 0 || (!must_write && r.chance(0.3)) {
+                // pause long enough for the connection to become idle sometimes
+                w.push(WOp::Sleep(r.log_range(1, 2500)));
+            }
+            let n = r.log_range(1, 30_000);
+            total += n;
+            let chunk = *r.pick(&[1usize, 100, 527, 528, 1400, 4096, 65536]);
+            w.push(WOp::Write { n, chunk: chunk.max((n / 2000) as usize + 1) });
+            if r.chance(0.4) {
+                w.push(WOp::Flush);
+            }
+        }
+        let _ = o;
+        (w, total)
+    };
+    let (mut wa, ta) = gen_side(&mut r, &oa, true);
+    let (mut wb, tb) = gen_side(&mut r, &ob, false);
+    for (w, peer_total) in [(&mut wa, tb), (&mut wb, ta)] {
+        w.push(WOp::Flush);
+        // application-level framing: close only after the peer's stream was read
+        w.push(WOp::WaitRead(peer_total));
+        if r.chance(0.5) {
+            w.push(WOp::Sleep(r.log_range(1, 2500)));
+        }
+        w.push(WOp::Shutdown);
+    }
+    let reads = |r: &mut Rng| vec![ROp::Read { n: u64::MAX, buf: r.log_range(64, 65536) as usize, vectored: false }];
+    let ra = reads(&mut r);
+    let rb = reads(&mut r);
+    let _ = link;
+    let mut params = std::collections::BTreeMap::new();
+    params.insert("c02_mode".to_string(), 1);
+    Scenario {
+        family: "c02_prompt".to_string(),
+        seed,
+        net,
+        nodes: vec![NodeCfg { ipv6, opts: oa, env: gen_env(&mut r) }, NodeCfg { ipv6, opts: ob, env: gen_env(&mut r) }],
+        connects: vec![ConnectScript { node: 0, to: 1, at_ms: 0, cancel_after_ms: None, side: Side { w: wa, r: ra } }],
+        accepts: vec![AcceptScript { node: 1, at_ms: 0, cancel_after_ms: None, side: Side { w: wb, r: rb } }],
+        global: vec![],
+        peer: None,
+        script_cap_ms: 120_000,
+        settle_ms: 6_000,
+        params,
+    }
+}
+
+// ------------------------------------------------------------------------------------------
+// C08: open -> transfer -> close cycles against a small connection limit.
+
+pub fn c08_cycles(seed: u64) -> Scenario {
+    let mut r = Rng::new(seed ^ 0xC08);
+    let ipv6 = r.chance(0.2);
+    let mut mk = |r: &mut Rng| OptsCfg {
+        max_live: Some(r.range(1, 4) as usize),
+        inactivity_ms: Some(r.log_range(1000, 10_000)),
+        max_retx: Some(r.range(2, 4) as usize),
+        rx_buf: if r.chance(0.3) { Some(r.log_range(3000, 65536) as usize) } else { None },
+        tx_init: if r.chance(0.3) { Some(r.log_range(64, 65536) as usize) } else { None },
+        dont_wait_lastack: r.chance(0.3),
+        disable_nagle: r.chance(0.3),
+        ..Default::default()
+    };
+    let oa = mk(&mut r);
+    let ob = mk(&mut r);
+    let b = [&oa, &ob].iter().map(|o| o.inactivity_ms().max((o.max_retx() as u64 + 1) * 60_000) + 7_000).max().unwrap();
+    let mut net = NetCfg { seed: r.next(), latency_us: pick_latency_us(&mut r).min(100_000), protect_syn: true, ..Default::default() };
+    net.jitter_us = r.range(0, 3000);
+    if r.chance(0.7) {
+        // loss concentrated on closing packets
+        net.type_drop_p[1] = *r.pick(&[0.2, 0.5, 0.8]);
+    }
+    if r.chance(0.5) {
+        net.drop_p = *r.pick(&[0.01, 0.05, 0.15]);
+    }
+    if r.chance(0.2) {
+        net.type_drop_p[2] = *r.pick(&[0.1, 0.3]);
+    }
+    if r.chance(0.15) {
+        net.dup_p = 0.05;
+    }
+    let cycles = oa.max_live().max(ob.max_live()) + r.range(1, 3) as usize;
+    let gap = 20_000 + b; // every cycle has ended (or is overdue) before the next starts
+    let mut connects = vec![];
+    let mut accepts = vec![];
+    let mut global = vec![];
+    let close = |r: &mut Rng, w: &mut Vec<WOp>, rd: &mut Vec<ROp>| {
+        // every mix of drop / shutdown / wait for peer FIN
+        match r.below(6) {
+            0 => {
+                w.push(WOp::Drop);
+                rd.insert(0, ROp::Drop);
+            }
+            1 => {
+                w.push(WOp::Shutdown);
+            }
+            2 => {
+                w.push(WOp::Shutdown);
+                w.push(WOp::Drop);
+                rd.push(ROp::Drop);
+            }
+            3 => {
+                w.push(WOp::Sleep(r.log_range(1, 2000)));
+                w.push(WOp::Drop);
+                rd.push(ROp::Drop);
+            }
+            4 => {
+                w.push(WOp::Flush);
+                w.push(WOp::Drop);
+                rd.push(ROp::Drop);
+            }
+            _ => {
+                // hold: rely on the peer's close
+            }
+        }
+    };
+    for i in 0..cycles {
+        let at = 10 + i as u64 * gap;
+        let (cn, an) = if r.chance(0.8) { (0, 1) } else { (1, 0) };
+        let mut wa = vec![WOp::Write { n: r.log_range(8, 20_000), chunk: r.log_range(8, 8192) as usize }];
+        let mut ra = vec![ROp::Read { n: u64::MAX, buf: 4096, vectored: false }];
+        let mut wb = if r.chance(0.5) { vec![WOp::Write { n: r.log_range(1, 20_000), chunk: r.log_range(8, 8192) as usize }] } else { vec![] };
+        let mut rb = vec![ROp::Read { n: u64::MAX, buf: 4096, vectored: false }];
+        close(&mut r, &mut wa, &mut ra);
+        close(&mut r, &mut wb, &mut rb);
+        // at least one side lets go
+        if !wa.iter().any(|o| matches!(o, WOp::Drop | WOp::Shutdown)) && !wb.iter().any(|o| matches!(o, WOp::Drop | WOp::Shutdown)) {
+            wa.push(WOp::Shutdown);
+        }
+        connects.push(ConnectScript { node: cn, to: an, at_ms: at, cancel_after_ms: None, side: Side { w: wa, r: ra } });
+        accepts.push(AcceptScript { node: an, at_ms: at.saturating_sub(5), cancel_after_ms: None, side: Side { w: wb, r: rb } });
+    }
+    match r.below(10) {
+        0 => global.push(GlobalOp::Cancel { node: r.below(2) as usize, at_ms: r.range(0, cycles as u64 * gap) }),
+        1 => global.push(GlobalOp::InjectReset { to_node: r.below(2) as usize, at_ms: 10 + r.below(cycles as u64) * gap + r.log_range(1, 3000) }),
+        2 => global.push(GlobalOp::Suspend { at_ms: 10 + r.below(cycles as u64) * gap + r.log_range(1, 3000), dur_ms: r.log_range(100, 600_000) }),
+        3 => net.cuts.push(Cut { from_ms: 10 + r.below(cycles as u64) * gap + r.log_range(1, 3000), to_ms: Some(10 + cycles as u64 * gap), dir: CutDir::Both }),
+        _ => {}
+    }
+    Scenario {
+        family: "c08_cycles".to_string(),
+        seed,
+        net,
+        nodes: vec![NodeCfg { ipv6, opts: oa, env: gen_env(&mut r) }, NodeCfg { ipv6, opts: ob, env: gen_env(&mut r) }],
+        connects,
+        accepts,
+        global,
+        peer: None,
+        script_cap_ms: cycles as u64 * gap + 10_000,
+        settle_ms: b + 10_000,
+        params: Default::default(),
+    }
+}
+
+// ------------------------------------------------------------------------------------------
+// C14: path-MTU discovery.
+
+pub fn c14_blackhole(seed: u64) -> Scenario {
+    let mut p = Profile::full(120_000);
+    p.tiny_mss = false;
+    p.cuts = false;
+    p.suspend = false;
+    p.stale = false;
+    let mut sc = duplex(seed, "c14_blackhole", &p);
+    let mut r = Rng::new(seed ^ 0xC14);
+    // Always a size limit on the path; loss restricted to non-probe datagrams.
+    let la = sc.nodes[0].opts.link_mtu();
+    let lb = sc.nodes[1].opts.link_mtu();
+    let ipv6 = sc.nodes[0].ipv6;
+    let min_link = la.min(lb);
+    let lo = min_payload(min_link, ipv6) + if ipv6 { 68 } else { 48 };
+    if min_link > lo {
+        let limit = r.range(lo as u64, min_link as u64) as usize;
+        if r.chance(0.7) {
+            sc.net.blackhole_ip = Some(limit);
+            sc.net.emsgsize_ip = None;
+        } else {
+            sc.net.emsgsize_ip = Some(limit);
+            sc.net.blackhole_ip = if r.chance(0.3) { Some(r.range(lo as u64, limit as u64) as usize) } else { None };
+        }
+    }
+    sc.net.spare_probes = true;
+    sc
+}
+
+pub fn c14_converge(seed: u64) -> Scenario {
+    let mut r = Rng::new(seed ^ 0xC14C);
+    let ipv6 = r.chance(0.3);
+    let floor_mtu = if ipv6 { 1280 } else { 576 };
+    let link = match r.below(4) {
+        0 => 1500,
+        1 => 9000,
+        _ => r.range(floor_mtu as u64 + 10, 4000) as usize,
+    };
+    let path = if r.chance(0.15) { link } else { r.range(floor_mtu as u64, link as u64) as usize };
+    let o = OptsCfg {
+        link_mtu: Some(link),
+        mtu_probe_retx: Some(r.below(3) as usize),
+        inactivity_ms: Some(600_000),
+        max_retx: Some(12),
+        tx_init: Some(r.log_range(8192, 262_144) as usize),
+        ..Default::default()
+    };
+    let mut net = NetCfg { seed: r.next(), latency_us: *r.pick(&[0u64, 1000, 10_000, 40_000]), protect_syn: true, spare_probes: true, ..Default::default() };
+    if path < link {
+        if r.chance(0.7) {
+            net.blackhole_ip = Some(path);
+        } else {
+            net.emsgsize_ip = Some(path);
+        }
+    }
+    if r.chance(0.4) {
+        // Loss of non-probe data segments only. A lost probe or a lost acknowledgement of a
+        // probe is indistinguishable from "too big" by design, so convergence to the exact
+        // size is only decidable when those are spared.
+        net.type_drop_p[0] = *r.pick(&[0.002, 0.01]);
+    }
+    // >= 200 segments at the largest size, plus the probing phase
+    let seg = max_payload(path, ipv6) as u64;
+    let n = 260 * seg + r.range(0, 50_000);
+    let mut params = std::collections::BTreeMap::new();
+    params.insert("c14_converge".to_string(), 1);
+    Scenario {
+        family: "c14_converge".to_string(),
+        seed,
+        net,
+        nodes: vec![NodeCfg { ipv6, opts: o.clone(), env: gen_env(&mut r) }, NodeCfg { ipv6, opts: o, env: gen_env(&mut r) }],
+        connects: vec![ConnectScript { node: 0, to: 1, at_ms: 0, cancel_after_ms: None, side: Side { w: vec![WOp::Write { n, chunk: 65536 }, WOp::Flush, WOp::Shutdown], r: vec![ROp::Read { n: u64::MAX, buf: 65536, vectored: false }] } }],
+        accepts: vec![AcceptScript { node: 1, at_ms: 0, cancel_after_ms: None, side: Side { w: vec![], r: vec![ROp::Read { n: u64::MAX, buf: 65536, vectored: false }] } }],
+        global: vec![],
+        peer: None,
+        script_cap_ms: 3_600_000,
+        settle_ms: 2_000,
+        params,
+    }
+}
+
+// ------------------------------------------------------------------------------------------
+// C11: corruption on the receive path.
+
+pub fn c11_corrupt(seed: u64) -> Scenario {
+    let mut p = Profile::full(20_000);
+    p.tiny_mss = false;
+    p.cuts = false;
+    p.suspend = false;
+    p.emsgsize = false;
+    p.blackhole = false;
+    let mut sc = duplex(seed, "c11_corrupt", &p);
+    let mut r = Rng::new(seed ^ 0xC11);
+    sc.net.corrupt_p = *r.pick(&[0.02, 0.1, 0.3]);
+    sc.net.corrupt_kinds = vec![0, 1, 2, 3, 4, 5, 6, 8];
+    for n in sc.nodes.iter_mut() {
+        n.opts.inactivity_ms = Some(r.log_range(1000, 8000));
+        n.opts.max_retx = Some(r.range(2, 5) as usize);
+    }
+    sc.script_cap_ms = 120_000;
+    sc
+}
+
+/// Only semantics-preserving corruption (an unknown extension appended to the chain): the
+/// byte stream must be unaffected, so the C01 oracle applies.
+pub fn c11_unknown_ext(seed: u64) -> Scenario {
+    let mut p = Profile::full(30_000);
+    p.tiny_mss = false;
+    p.cuts = false;
+    p.suspend = false;
+    p.blackhole = false;
+    p.emsgsize = false;
+    let mut sc = duplex(seed, "c11_unknown_ext", &p);
+    let mut r = Rng::new(seed ^ 0xC11E);
+    sc.net.corrupt_p = *r.pick(&[0.1, 0.5, 1.0]);
+    sc.net.corrupt_kinds = vec![4];
+    // The extension makes datagrams up to 10 bytes larger: keep clear of size limits.
+    sc.net.blackhole_ip = None;
+    sc.net.emsgsize_ip = None;
+    sc
+}
+
+// ------------------------------------------------------------------------------------------
+// Extremes for the in-situ C15/C16 oracles: zero RTT, very long delays, suspend jumps, long
+// back-off chains, tiny/zero peer windows, MSS steps.
+
+pub fn extremes(seed: u64, family: &str) -> Scenario {
+    let mut p = Profile::full(60_000);
+    p.tiny_mss = true;
+    let mut sc = duplex(seed, family, &p);
+    let mut r = Rng::new(seed ^ 0xE77);
+    match r.below(5) {
+        0 => {
+            sc.net.latency_us = 0;
+            sc.net.jitter_us = 0;
+        }
+        1 => {
+            // multi-second delays
+            sc.net.latency_us = r.range(500_000, 20_000_000);
+            sc.net.jitter_us = r.range(0, 10_000_000);
+        }
+        2 => {
+            sc.global.push(GlobalOp::Suspend { at_ms: r.log_range(1, 3000), dur_ms: r.log_range(1000, 7_200_000) });
+        }
+        3 => {
+            // long back-off chains: cut for a long while, many retransmissions allowed
+            for n in sc.nodes.iter_mut() {
+                n.opts.max_retx = Some(12);
+                n.opts.inactivity_ms = Some(3_600_000);
+            }
+            let from = r.log_range(1, 2000);
+            sc.net.cuts.push(Cut { from_ms: from, to_ms: Some(from + r.log_range(1000, 900_000)), dir: CutDir::Both });
+        }
+        _ => {
+            // slow reader with small buffer: zero / tiny peer windows
+            let big = sc.nodes.iter().map(|n| n.opts.link_mtu()).max().unwrap();
+            sc.nodes[1].opts.rx_buf = Some(2 * big + r.below(2000) as usize);
+            sc.accepts[0].side.r = vec![ROp::Sleep(r.log_range(10, 4000)), ROp::Read { n: r.log_range(1, 3000), buf: 512, vectored: false }, ROp::Sleep(r.log_range(10, 4000)), ROp::Read { n: u64::MAX, buf: 4096, vectored: false }];
+        }
+    }
+    sc.script_cap_ms = 7_200_000 + 2_000_000;
+    sc
 }
